@@ -17,6 +17,7 @@ func init() { register("C13", checkC13) }
 func checkC13(c *chk.Ctx) {
 	h := newH(c)
 	c.Decided = []string{
+		"R13g the apply path does not index one list with an index bounded only by another list's length (a legal logged request must not panic)",
 		"R13f the records the server itself stores in a format other than StorageEntry live under keys that no client request can name (open finding F29: notification batches are stored under __oxia/notifications/ and requests are not kept out of the __oxia/ key space)",
 		"R13e while a request is applied, a method is only called on a possibly-nil helper object of the kv package (the per-write notification recorder is nil when notifications are disabled) under a nil test at the call or inside the method: applying a request never panics because of the shard's configuration",
 		"R13a the error result of applying a logged request can only originate from the storage layer / (de)serialisation of stored data: no repository sentinel that classifies request content, no error constructed while applying, no parse of request- or key-derived text",
@@ -33,6 +34,7 @@ func checkC13(c *chk.Ctx) {
 	ruleR13d(h)
 	ruleR13e(h)
 	ruleR13f(h)
+	ruleParallelSliceIndex(h, "R13g")
 	h.Rule("R13b", "K1", "apply loops stop at the first failing entry (shared with R07c)", 4)
 	ruleR07cInto(h, "R13b")
 }
